@@ -166,6 +166,7 @@ pub fn gen_world(rng: &mut Rng, prop: &str) -> WorldCfg {
             }
         }
     };
+    let oracle = if kind == WorldKind::FeedOnly { OracleKind::Real } else { oracle };
     let nv = match prop {
         "C14" => rng.range(2, 3),
         "C09" | "C20" => rng.range(1, 2),
@@ -230,6 +231,7 @@ pub fn gen_world(rng: &mut Rng, prop: &str) -> WorldCfg {
         let open = true;
         let vdec = if prop == "C20" && i > 0 && rng.chance(1, 2) { if dec == 6 { 8 } else { 6 } } else { dec };
         let vd: U = 10u128.pow(vdec as u32);
+        let (toll, spread, fluct) = if vdec != dec { (0, 0, 0) } else { (toll, spread, fluct) };
         if vdec != dec {
             // reserves must still be at least one whole unit in the vAMM's own decimals
             b = b.max(vd);
@@ -475,7 +477,7 @@ impl Gen {
         let last = r.model.feed[v].last().map(|x| x.1).unwrap_or(spot).max(1);
         let base = if rng.chance(1, 2) { spot } else { last };
         let pct: i128 = *rng.pick(&[-90i128, -50, -20, -11, -10, -9, -5, -1, 0, 1, 5, 9, 10, 11, 20, 50, 100]);
-        let price = ((base as i128) * (100 + pct) / 100).max(1) as u128;
+        let price = mul_div(base.min(10u128.pow(30)), (100 + pct) as u128, 100).unwrap_or(base).max(1);
         let now = r.w.now();
         let last_ts = r.model.feed[v].last().map(|x| x.0).unwrap_or(0);
         let ts = match rng.below(6) {
@@ -826,7 +828,7 @@ impl Gen {
         let price = match rng.below(5) {
             0 => lp,
             1 => rng.range128(1, 1000),
-            _ => ((lp as i128) * (100 + *rng.pick(&[-50i128, -10, -1, 1, 10, 50, 100])) / 100).max(1) as u128,
+            _ => mul_div(lp.min(10u128.pow(30)), (100 + *rng.pick(&[-50i128, -10, -1, 1, 10, 50, 100])) as u128, 100).unwrap_or(lp).max(1),
         };
         let ts = match rng.below(5) {
             0 => lt,
